@@ -143,7 +143,7 @@ func runMany(c ManyCase) (res ev.Result) {
 }
 
 var many = ev.NewCheck("C01", "many-tracks",
-	"enumeration: 1, 2, 300, 32767, 32768, 40000, 65535 tiny tracks (every third with a note, every second closed explicitly) x New/NewSMF1/NewSMF2; oracle as above",
+	"enumeration: 1, 2, 255, 256, 257, 300, 32767, 32768, 40000, 65535 tiny tracks (every third with a note, every second closed explicitly) x New/NewSMF1/NewSMF2; oracle as above",
 	nil, runMany)
 
 func TestEnumManyTracks(t *testing.T) {
@@ -151,7 +151,7 @@ func TestEnumManyTracks(t *testing.T) {
 		return
 	}
 	many.R.Exhaustive = true
-	ns := []int{1, 2, 300, 32767, 32768, 40000}
+	ns := []int{1, 2, 255, 256, 257, 300, 32767, 32768, 40000}
 	if ev.Thorough() {
 		ns = append(ns, 65535)
 	}
